@@ -34,6 +34,8 @@ def run(ctx):
     cfg = "MC_MLNorm" if q else "MC_MLNorm_thorough"
     r = lib.tlc("MC_MLNorm", cfg=cfg, workers=4 if q else 8, timeout=1500, heap="6g")
     ctx.mc_must_pass(r, "theorems M0-M5 (fan representation), F1-F4 (ML algebra) (%s)" % cfg, "MC_MLNorm")
+    if r.depth < 8:     # configuration, memo, six theorems of the "geo" family: every theorem was evaluated
+        raise lib.ModelFailure("MC_MLNorm reached depth %d only: not every theorem was evaluated" % r.depth)
     # a specification whose theorems cannot fail proves nothing: the same model with the fan size after gap
     # removal one too small must violate M2/M3
     rb = lib.tlc("MC_MLNorm", cfg="MC_MLNorm_smallfan", workers=2, timeout=600, heap="4g")
